@@ -779,3 +779,6 @@ v("c16-pandas-fill-not-for-inner", "C16", PB,
   "        for c in common_cols:\n            if c not in merged_key_cols:\n                is_null = res[c].isnull()\n                if op.jointype != \"INNER\":\n                    res.loc[is_null, c] = res.loc[is_null, c + \"_tmp_right_col\"]")
 v("c27-mean-allowed-in-ordered-window", "C27", "expr_rep.py", "    \"count\",\n    \"max\",\n    \"mean\",\n    \"median\",\n    \"min\",\n    \"nunique\",\n    \"prod\",", "    \"count\",\n    \"max\",\n    \"median\",\n    \"min\",\n    \"nunique\",\n    \"prod\",")
 v("c12-sqlnode-not-in-eval-env", "C12", "expr_parse_fn.py", "    TableDescription,\n    SQLNode,\n)", "    TableDescription,\n)")
+v("c18-count-numbered-in-row-order", "C18", PB,
+  "                    if (zero_op == \"row_number\") or (\n                        (zero_op == \"count\") and (len(op.order_by) > 0)\n                    ):",
+  "                    if zero_op in {\"row_number\", \"count\"}:")
